@@ -209,11 +209,31 @@ def canaries(chk, prog):
             chk.canary(name, False, "canary crashed: %s: %s" % (type(e).__name__, e))
 
 
+def scalar_last_routes(chk, prog):
+    """IDENT.storage: the matrix of an object stored scalar-last (order='S') is the matrix of the same quaternion stored scalar-first, for the single
+    and for the array class (the second copy of the formula unpacks its components separately)"""
+    from sa.symeval import unit_syms
+    qa, qb = unit_syms("sa"), unit_syms("sb")
+    for cname, build, pick in (("Quaternion", lambda it: quat_obj(it, np.roll(qa, -1), scalar_vector=False), lambda out: [(out, qa)]),
+                               ("QuaternionArray", lambda it: quat_obj(it, np.vstack([np.roll(qa, -1), np.roll(qb, -1)]), scalar_vector=False, cls="QuaternionArray"),
+                                lambda out: [(out[0], qa), (out[1], qb)])):
+        f = prog.func(QUAT + "::%s.to_DCM" % cname)
+        chk.touch(f)
+
+        def law(f=f, build=build, pick=pick):
+            it = Interp(prog)
+            out = to_obj(it.run(f, [], self_obj=build(it)))
+            return all_of(*[eq(m_, E_ref(q_), "to_DCM of scalar-last storage") for m_, q_ in pick(out)])
+        chk.ob("IDENT.storage", f.ref + " [scalar-last]", "%s.to_DCM() of (x, y, z, w) storage == E(w, x, y, z)" % cname, law, module=QUAT, function="%s.to_DCM" % cname,
+               construct="to_DCM of scalar-last storage", line=f.node.lineno)
+
+
 def run(chk, prog, tier):
     check_matrix_sites(chk, prog)
     check_product(chk, prog)
     check_rotation(chk, prog)
     check_dcm_route(chk, prog)
+    scalar_last_routes(chk, prog)
     chk.require_count("IDENT.orthogonal", 8)
     chk.require_count("IDENT.reference", 8)
     canaries(chk, prog)
